@@ -81,6 +81,7 @@ var VerifEntries = map[string]func(){
 	"VerifC09_ConsensusFees":   VerifC09_ConsensusFees,
 	"VerifC09_Blocks":          VerifC09_Blocks,
 	"VerifC09_SetChanges":      VerifC09_SetChanges,
+	"VerifC09_ContractReceipt": VerifC09_ContractReceipt,
 	"VerifC10_Sends":           VerifC10_Sends,
 	"VerifC17_Jobs":            VerifC17_Jobs,
 	"VerifC03_Treasury":        VerifC03_Treasury,
